@@ -248,13 +248,16 @@ func c11MutateFile(rng *rand.Rand, disk *simfs.Disk, base *c11Base, op string) (
 		if rng.Intn(2) == 0 && p < len(pl) {
 			// move on to the Extensions prefix
 			dl, m := binary.Uvarint(pl[p:])
-			if m > 0 && p+m+int(dl) < len(pl) {
+			if m > 0 && dl < uint64(len(pl)) && p+m+int(dl) < len(pl) {
 				p += m + int(dl)
 			}
 		}
 		vals := []uint64{1 << 63, ^uint64(0), 1<<63 + 1, 1<<63 - 1, 1 << 62, 1 << 32, 1 << 31, 1<<31 - 1, uint64(len(pl)), uint64(len(pl) + 1), uint64(len(pl) - p)}
 		var enc [binary.MaxVarintLen64]byte
 		m := binary.PutUvarint(enc[:], vals[rng.Intn(len(vals))])
+		if p < 0 || p >= len(pl) {
+			return "", false
+		}
 		copy(pl[p:], enc[:m])
 	case "extend":
 		extra := make([]byte, 8*(1+rng.Intn(64)))
